@@ -1,21 +1,37 @@
 """C05 — NFFT only chooses the sampling grid of one underlying spectrum."""
-import json, cmath
+import json, cmath, os
 import numpy as np
 import vlib
-from vlib import fcl
+from vlib import fcl, fll
 from props import _estimators as E
+from props import _pipelines as P
 
-LEVEL_TEXT = ("Coq theorems (abstract *-field, every length, refinement factor and bin): the DFT character of the grid c*n restricted to "
-              "multiples of c is a character of exact period n, and the DFT of the same samples on the fine grid at bin c*k equals the DFT on "
-              "the coarse grid at bin k (function and list level).  The DFT specification is tied to numpy.fft by a binary64 correspondence "
-              "on pairs of grids.  For every estimator class a search compares the estimates on NFFT and c*NFFT at their common frequencies "
-              "and checks that the model parameters do not depend on NFFT.")
-TRUSTED = ["Coq 8.16.1 kernel + vm_compute", "numpy.fft.fft modelled by the DFT specification (validated by the correspondence of this run)", "Python harness"]
-UNPROVED = ["per-class grid independence (periodogram, correlogram, arma2psd, minimum variance, multitaper) and NFFT-independence of model "
-            "parameters: search only at this commit",
-            "the adaptive multitaper iteration stops on a grid-wide test (mean |S-S1| < 0.0005 sig2/NFFT): its estimate depends on the grid "
-            "within that tolerance, so it is compared at rtol 1e-3"]
-ASSUMPTIONS = ["exact arithmetic in the theorems"]
+LEVEL_TEXT = ("Coq theorems (abstract *-field; fine grid c*n with character tw', coarse grid n with the restricted character; every data length "
+              "N <= n, refinement factor c >= 1 and returned bin, both parities of n and c*n, one-sided index bounds included): the restricted "
+              "character has exact period n; the DFT of the same samples agrees at common frequencies (function and list level); and, composing "
+              "the merged models, entry k on the coarse grid = entry c*k on the fine grid for speriodogram (real/complex, every window, every "
+              "detrend value) and the Periodogram object after any common history, CORRELOGRAMPSD under NFFT >= 2 lag + 1 (same exceptions), "
+              "arma2psd under NFFT > max(len A, len B), minvar under NFFT >= 2 order - 1 (identical AR vector and reflection coefficients), pmtm / "
+              "MultiTapering with unity and eigen weights (identical eigenvalues and weights), eigen / pmusic / pev under NFFT >= P (identical "
+              "errors and singular values), and every store form of the class pipelines (slice and doubling for both parities, flip, "
+              "twosided_2_onesided, centerdc_2_twosided).  Adaptive multitaper: exact pointwise statement (after the same number of passes "
+              "estimate and weights agree at common frequencies; class result exact when the two runs make the same number of passes).  "
+              "Theorems over the pipeline table GENERATED from the source on this run: no class passes NFFT to its parameter estimator or "
+              "computes a stored attribute from NFFT, and for every class but pdaniell the stored PSD at entry k (NFFT = n) equals entry c*k "
+              "(NFFT = c*n), real and complex -- given agreement of the functional estimator's arrays, and end to end (estimator model + store) for "
+              "each of the six functional estimators, which cover every class but pdaniell.  The DFT specification is tied to numpy.fft and the speriodogram model to the implementation by "
+              "binary64 in-Coq correspondences on pairs of grids; a search compares every class and five functional forms on NFFT and c*NFFT "
+              "and the model parameters.")
+TRUSTED = ["Coq 8.16.1 kernel + vm_compute", "numpy.fft.fft modelled by the DFT specification (validated by the correspondence of this run)",
+           "the fail-closed AST translator tools/props/_pipelines.py and the interpreter coq/Model/PipelineLib.v (validated against real objects by C08)",
+           "the estimator models of coq/Model (Periodogram, Arma2psd, Minvar, Mtm, Eigen) are tied to the source by the correspondences of C01, C08, C16, C19, C17; "
+           "here the speriodogram model is re-tied on grid pairs", "Python harness"]
+UNPROVED = ["adaptive multitaper without the equal-number-of-passes hypothesis: not a theorem (the stopping test is a grid-wide mean against 0.0005 sig2/NFFT, "
+            "so the two runs may stop after different numbers of passes): compared at rtol 1e-3 by search; the pointwise and equal-passes statements are proved",
+            "NFFT-independence of ar/ma/rho/reflection is proved as 'the parameter estimator is not passed NFFT and no stored attribute is computed from NFFT' "
+            "(generated table) and checked on the attributes by search; the parameter estimators themselves belong to C09-C14",
+            "pdaniell (Daniell smoothing averages neighbouring bins of the NFFT grid, a different estimator per grid) is outside the property and excluded from class_grid"]
+ASSUMPTIONS = ["exact arithmetic in the theorems", "scale_by_freq off (the property's setting)"]
 RULE = ("every class x real/complex data x admissible NFFT (even, odd) x c in {2,3,4}; common frequencies: entry k of the coarse estimate vs entry "
         "c*k of the fine one; non-trivial = non-constant data")
 
@@ -28,6 +44,26 @@ Definition grid_case (tol : float) (c : nat) (tblfine x implcoarse : list FloatC
   fc_close_rel tol 0x1p-40%float (mk n (fun k => nthF (OF:=fc_ops) fine (c * k))) implcoarse
   && fc_close_rel tol 0x1p-40%float (@dft _ fc_ops (coarsen c (tw_table tblfine)) n x) implcoarse.
 Local Open Scope float_scope.
+"""
+
+GEN_NAMES = ['table_complete_c05', 'params_independent_of_nfft', 'class_grid', 'class_grid_periodogram', 'class_grid_correlogram',
+             'class_grid_arma2psd', 'class_grid_minvar', 'class_grid_mtm', 'class_grid_eigen', 'class_grid_covers']
+
+PRE_PER = """From Coq Require Import PrimFloat ZArith List.
+Require Import Spectrum.Theory.Ops Spectrum.Theory.Vec Spectrum.Theory.Dft Spectrum.Model.Corr Spectrum.Model.Periodogram Spectrum.Proofs.GridTheory
+               Spectrum.Instances.FloatC Spectrum.Instances.FloatTw Spectrum.Instances.QcC.
+Import ListNotations.
+Local Open Scope float_scope.
+Definition R2C (l : list float) : list FloatC := map (fun a => (a, 0)) l.
+(* the model of speriodogram on the fine grid read at bins c*k, and on the coarse grid with the coarsened character,
+   against the implementation on the coarse grid *)
+Definition per_grid_case (tol : float) (c : nat) (tblfine x : list FloatC) (w : list float) (isreal : bool) (dt : pyval) (impl : list float) : bool :=
+  let nf := length tblfine in
+  let n := Nat.div nf c in
+  let fine := @speriodogram _ fc_ops (tw_table tblfine) (0x1p+0, 0) x (R2C w) (Some nf) isreal dt PyFalse (0x1p+0, 0) in
+  let coarse := @speriodogram _ fc_ops (coarsen c (tw_table tblfine)) (0x1p+0, 0) x (R2C w) (Some n) isreal dt PyFalse (0x1p+0, 0) in
+  fc_close_rel tol 0x1p-40 (mk (nbins isreal n) (fun k => nthF (OF:=fc_ops) fine (c * k))) (R2C impl)
+  && fc_close_rel tol 0x1p-40 coarse (R2C impl).
 """
 
 
@@ -131,6 +167,20 @@ def run(ctx):
     rng = ctx.rng
     ctx.check_theorems('Properties/C05.v')
 
+    # ---------------- translator + theorems over the generated pipeline table
+    src = os.path.join(vlib.SNAP, 'src', 'spectrum')
+    table_v = None
+    try:
+        tab = P.extract(src)
+        table_v = P.gallina(tab)
+    except P.Fail as e:
+        for n in GEN_NAMES:
+            ctx.obligations.append((n, False, []))
+        ctx.broken.append({'theorem': 'translator:pipelines (source outside the recognised shapes)', 'where': src, 'log': str(e)})
+    if table_v is not None:
+        thm = open(os.path.join(os.path.dirname(os.path.abspath(__file__)), '_c05_theorems.v.in')).read()
+        ctx.check_generated('C05_pipelines', table_v + thm, GEN_NAMES)
+
     cases = []; meta = []
     for _ in range(ctx.q(40, 300)):
         n = int(rng.integers(1, ctx.q(16, 32))); c = int(rng.integers(1, 5)); N = int(rng.integers(1, n + 1))
@@ -143,6 +193,30 @@ def run(ctx):
         ctx.case(('grid', x.tobytes(), n, c), nontrivial=(n >= 3 and c >= 2), sample={'function': 'fft(x, n) vs model fft(x, c*n)[c*k]', 'n': n, 'c': c, 'N': N})
     for i in ctx.coq_cases('c05_grid', PRE, cases, shard=20, descr='numpy.fft.fft on the coarse grid vs the DFT specification on the fine grid at bins c*k (binary64)'):
         ctx.corr_disagreement('numpy.fft.fft', i, meta[i])
+
+    # ---------------- speriodogram model on grid pairs (incl. mean removal) vs the implementation on the coarse grid
+    from spectrum import speriodogram
+    from spectrum.window import Window
+    cases = []; meta = []
+    for it in range(ctx.q(24, 160)):
+        n = int(rng.integers(2, ctx.q(13, 25))); c = int(rng.integers(1, 4)); N = int(rng.integers(2, n + 1))
+        cplx = bool(it % 2); dt = ['PyTrue', 'PyFalse', 'PyNone', 'PyTrue'][(it // 2) % 4]
+        name = str(rng.choice(['hann', 'hamming', 'rectangular', 'blackman']))
+        x = rng.integers(-64, 65, size=N) / 8.0 + float(rng.integers(0, 5))
+        if cplx:
+            x = x + 1j * (rng.integers(-64, 65, size=N) / 8.0 + 2.0)
+        w = np.asarray(Window(N, name).data, dtype=float)
+        impl = np.asarray(speriodogram(x, NFFT=n, detrend={'PyTrue': True, 'PyFalse': False, 'PyNone': None}[dt], scale_by_freq=False, window=name), dtype=float)
+        tbl = [cmath.exp(-2j * cmath.pi * j / (c * n)) for j in range(c * n)]
+        cases.append('per_grid_case 0x1p-30 %d%%nat %s %s %s %s %s %s' % (c, fcl(tbl), fcl(np.asarray(x, dtype=complex)), fll(w),
+                                                                     'false' if cplx else 'true', dt, fll(impl)))
+        meta.append({'function': 'speriodogram', 'n': n, 'c': c, 'N': N, 'detrend': dt, 'window': name, 'complex': cplx})
+        ctx.count('corr/speriodogram_grid/%s/%s' % ('complex' if cplx else 'real', dt))
+        ctx.case(('pergrid', x.tobytes(), n, c, dt, name), nontrivial=(c >= 2 and n > N),
+                 sample={'function': 'speriodogram(x, n) vs model speriodogram(x, c*n)[c*k]', 'n': n, 'c': c, 'N': N, 'detrend': dt, 'window': name})
+    for i in ctx.coq_cases('c05_speriodogram_grid', PRE_PER, cases, shard=20,
+                           descr='speriodogram on the coarse grid vs the Gallina model on the fine grid at bins c*k and on the coarse grid (binary64, mean removal included)'):
+        ctx.corr_disagreement('speriodogram', i, meta[i])
 
     for it in range(ctx.q(30, 150) * len(E.CLASSES)):
         cls = E.CLASSES[it % len(E.CLASSES)]
